@@ -43,35 +43,35 @@ PROPS = {
         tinv=[],
     ),
     "C05": dict(
-        family="eco", edge_q=["credits2_e"], edge=["basket_e", "credits2_e"],
+        family="eco", edge_q=["credits2_e", "basket_e"], edge=["basket_e", "credits2_e"],
         mc=[("basket_q", 600)], mc_t=[("basket_t", 1500)],
         inv=["C05_Backed"],
         step=["C05_PutMints", "C05_TakeBurns", "C05_OnlyPutTake"],
         tinv=["T_C05_ChainInvariantAgrees"],
     ),
     "C06": dict(
-        family="eco", edge_q=["market2_e"], edge=["market_e", "market2_e"],
+        family="eco", edge_q=["market2_e", "market_e"], edge=["market_e", "market2_e"],
         mc=[("market_q", 300)], mc_t=[("market_t", 1800)],
         inv=["C06_Escrow", "C06_OrderWellFormed"],
         step=["C06_DenomAllowedAtWrite"],
         tinv=["T_C06_OrderQuantitiesWellFormed"],
     ),
     "C07": dict(
-        family="eco", edge_q=["market2_e"], edge=["market_e", "params_e", "market2_e"],
+        family="eco", edge_q=["market2_e", "params_e"], edge=["market_e", "params_e", "market2_e"],
         mc=[("market_q", 300)], mc_t=[("market_t", 1800), ("params_t", 900)],
         inv=[],
         step=["C07_Orders", "C07_Credits", "C07_Coins", "C07_NoOtherCoins"],
         tinv=[],
     ),
     "C11": dict(
-        family="eco", edge_q=["credits2_e"], edge=["basket_e", "credits2_e"],
+        family="eco", edge_q=["credits2_e", "basket_e"], edge=["basket_e", "credits2_e"],
         mc=[("basket_q", 600)], mc_t=[("basket_t", 1500)],
         inv=[],
         step=["C11_PutOnlyIf", "C11_PutIf", "C11_OldestFirst", "C11_AutoRetire", "C11_CriteriaAsSet"],
         tinv=[],
     ),
     "C12": dict(
-        family="eco", edge=["market_e"],
+        family="eco", edge_q=["market_e"], edge=["market_e", "market2_e"],
         mc=[("market_q", 300)], mc_t=[("market_t", 1800)],
         inv=["C12_NoneExpired"],
         step=["C12_Expiry", "C12_NoBuyExpired", "C12_ExpirationAsRequested"],
@@ -105,7 +105,7 @@ PROPS = {
         tinv=[],
     ),
     "C18": dict(
-        family="eco", edge_q=["zerofee_q"], edge=["params_e", "zerofee_q"],
+        family="eco", edge_q=["zerofee_q", "params_e"], edge=["params_e", "zerofee_q"],
         mc=[("params_q", 300), ("zerofee_q", 60)], mc_t=[("params_t", 900), ("zerofee_q", 60)],
         inv=[],
         step=["C18_FeeExact", "C18_NoFeatureDisabled", "C18_ParamsAsSet"],
